@@ -156,6 +156,157 @@ def Bucket.runOps (A : Arith) : Bucket → List Op → List Bool × Bucket
     let q := Bucket.runOps A r.2 rest
     (r.1 :: q.1, q.2)
 
+/-! ## Which limiter is in force: `NewFlowControl`, `localWrapper.Sync`, `upstreamLimiter.Sync`
+
+    pkg/flowcontrols/flowcontrol/flowcontrol.go   GuessFlowControlSchemaType, NewFlowControl, flowControl.Resize
+    pkg/flowcontrols/remote/flowcontrol_wrapper.go localWrapper.Sync (rebuild on first use / type change, else Resize)
+    pkg/flowcontrols/limiter.go                    upstreamLimiter.syncLocalFlowControls (create, sync, delete)
+
+Only what decides WHICH limiter serves a schema name and with WHICH parameters is modelled; the behaviour of a
+max-in-flight limiter is C05's subject. -/
+
+inductive SType where
+  | exempt | maxInflight | tokenBucket
+deriving DecidableEq, Repr
+
+/-- `FlowControlSchema` without its name: the five optional members and the strategy
+    (0 `""`, 1 `local`, 2 `globalAllocate`, 3 `globalCount`). -/
+structure Schema where
+  exempt : Bool
+  mi : Option Nat
+  gmi : Option Nat
+  tb : Option (Nat × Nat)
+  gtb : Option (Nat × Nat)
+  strategy : Nat
+deriving DecidableEq, Repr
+
+/-- `GuessFlowControlSchemaType` (same order of cases) -/
+def guessType (s : Schema) : SType :=
+  if s.exempt then .exempt
+  else if s.mi.isSome || s.gmi.isSome then .maxInflight
+  else if s.tb.isSome || s.gtb.isSome then .tokenBucket
+  else .exempt
+
+/-- the operations of a token bucket the configuration path uses (instantiated with the rational `Bucket` for the
+    theorems and with the Float twin `F.FBucket` for the comparison with Go) -/
+structure BOps (β : Type) where
+  new : Nat → Nat → β
+  /-- the bucket after `Resize(qps, burst)` -/
+  resize : β → Nat → Nat → β
+  qps : β → Nat
+  burst : β → Nat
+
+def ratOps : BOps Bucket :=
+  { new := Bucket.new, resize := fun b q bu => (b.resize q bu).2, qps := (·.qps), burst := (·.burst) }
+
+/-- the limiter a schema name is served by: `flowControl{InfinityTokenBucket}`, `flowControl{maxinflight.New(max)}`
+    or `resizeableTokenBucket` -/
+inductive Limiter (β : Type) where
+  | exempt
+  | mi (max : Nat)
+  | tb (b : β)
+
+def Limiter.type {β : Type} : Limiter β → SType
+  | .exempt => .exempt
+  | .mi _ => .maxInflight
+  | .tb _ => .tokenBucket
+
+/-- `NewFlowControl(schema)`; `none` = nil dereference (a `global*` member without its local member: the type is
+    guessed from either, the parameters are read from the local one) -/
+def newFlowControl {β : Type} (O : BOps β) (s : Schema) : Option (Limiter β) :=
+  match guessType s with
+  | .maxInflight => s.mi.map Limiter.mi
+  | .tokenBucket => s.tb.map fun qb => Limiter.tb (O.new qb.1 qb.2)
+  | .exempt => some Limiter.exempt
+
+/-- `localWrapper`: the embedded limiter (nil before the first `Sync`) and `localConfig` -/
+structure LocalWrapper (β : Type) where
+  fc : Option (Limiter β)
+  config : Option Schema
+
+def LocalWrapper.empty {β : Type} : LocalWrapper β := { fc := none, config := none }
+
+/-- `localWrapper.Sync(schema)`; `none` = nil dereference -/
+def LocalWrapper.sync {β : Type} (O : BOps β) (w : LocalWrapper β) (s : Schema) : Option (LocalWrapper β) :=
+  if w.config = some s then some w else      -- reflect.DeepEqual(schema, f.localConfig)
+  match w.fc with
+  | none => (newFlowControl O s).map fun l => { fc := some l, config := some s }
+  | some l =>
+    if l.type ≠ guessType s then (newFlowControl O s).map fun l => { fc := some l, config := some s } else
+    match l with
+    | .mi _ => s.mi.map fun m => { fc := some (.mi m), config := some s }        -- f.Resize(uint32(Max), 0)
+    | .tb b => s.tb.map fun qb => { fc := some (.tb (O.resize b qb.1 qb.2)), config := some s }
+    | .exempt => some { fc := some .exempt, config := some s }
+
+/-- a flow-control spec: schema names (numbered) with their schemas, in order -/
+abbrev Spec := List (Nat × Schema)
+
+/-- `upstreamLimiter`: the spec synced last and the cache per schema name -/
+structure UL (β : Type) where
+  current : Spec
+  caches : List (Nat × LocalWrapper β)
+
+def UL.init {β : Type} : UL β := { current := [], caches := [] }
+
+def setCache {β : Type} (n : Nat) (w : LocalWrapper β) : List (Nat × LocalWrapper β) → List (Nat × LocalWrapper β)
+  | [] => [(n, w)]
+  | x :: r => if x.1 = n then (n, w) :: r else x :: setCache n w r
+
+/-- the loop over the new schemas: load or create the cache, `LocalFlowControl().Sync(schema)` -/
+def syncLoop {β : Type} (O : BOps β) : List (Nat × LocalWrapper β) → Spec → Option (List (Nat × LocalWrapper β))
+  | cs, [] => some cs
+  | cs, (n, s) :: rest =>
+    match ((cs.lookup n).getD LocalWrapper.empty).sync O s with
+    | none => none
+    | some w => syncLoop O (setCache n w cs) rest
+
+/-- `syncLocalFlowControls`: nothing if the spec is unchanged; else sync every schema, then delete the caches of
+    the names of the old spec that are gone -/
+def UL.sync {β : Type} (O : BOps β) (u : UL β) (spec : Spec) : Option (UL β) :=
+  if u.current = spec then some u else
+  match syncLoop O u.caches spec with
+  | none => none
+  | some cs =>
+    some { current := spec,
+           caches := cs.filter fun x => !((u.current.lookup x.1).isSome && (spec.lookup x.1).isNone) }
+
+/-- `Load(name)` with the local limiter in force: `LocalFlowControl().Current()` -/
+def UL.load {β : Type} (u : UL β) (n : Nat) : Option (Limiter β) := (u.caches.lookup n).bind (·.fc)
+
+def UL.runSyncs {β : Type} (O : BOps β) : UL β → List Spec → Option (UL β)
+  | u, [] => some u
+  | u, sp :: rest => match u.sync O sp with
+    | none => none
+    | some u' => UL.runSyncs O u' rest
+
+/-- replace the bucket of the token-bucket limiter serving `n` (after a `TryAcquire`) -/
+def UL.setBucket {β : Type} (u : UL β) (n : Nat) (b : β) : UL β :=
+  match u.caches.lookup n with
+  | some w => { u with caches := setCache n { w with fc := some (.tb b) } u.caches }
+  | none => u
+
+/-- `Load(name).TryAcquire()` when a token bucket serves `n` (`f` = the bucket's `TryAcquire` at the clock reading of
+    this call); `none` when no token bucket serves `n` -/
+def UL.acquireWith {β : Type} (f : β → Bool × β) (u : UL β) (n : Nat) : Option (Bool × UL β) :=
+  match u.load n with
+  | some (.tb b) => some ((f b).1, u.setBucket n (f b).2)
+  | _ => none
+
+/-- a history of a gateway's flow control for one upstream: reconfigurations and requests -/
+inductive ULOp where
+  | sync (spec : Spec)
+  | acquire (n : Nat) (now : Rat)
+
+/-- `none` = nil dereference in a `Sync` (illegal spec) -/
+def UL.runOps (A : Arith) : UL Bucket → List ULOp → Option (UL Bucket)
+  | u, [] => some u
+  | u, .sync sp :: rest => match u.sync ratOps sp with
+    | none => none
+    | some u' => UL.runOps A u' rest
+  | u, .acquire n now :: rest => match u.acquireWith (fun b => b.tryAcquire A now) n with
+    | none => UL.runOps A u rest
+    | some r => UL.runOps A r.2 rest
+
 /-! ## Small-step system: callers, the mutex, the clock
 
 `mu` is the `Option` in `Sys.crit`: at most one caller is between `mu.Lock()` and `mu.Unlock()` (Go's mutual
@@ -322,6 +473,11 @@ def FBucket.runOps : FBucket → List FOp → List Bool × FBucket
     let q := FBucket.runOps r.2 rest
     (r.1 :: q.1, q.2)
 
+def FBucket.resize (b : FBucket) (q bu : Nat) : FBucket := (b.step (.resize q bu)).2
+
 end F
+
+def floatOps : BOps F.FBucket :=
+  { new := F.FBucket.new, resize := F.FBucket.resize, qps := (·.qps), burst := (·.burst) }
 
 end KG.Model.TokenBucket
